@@ -126,6 +126,16 @@ pub fn plan(r: &mut Rng, sid: usize) -> Value {
     while pool.len() < k { let z = *r.pick(&ZONES); if !pool.contains(&z) { pool.push(z); } }
     // in half of the sessions two zones with a common 16-byte identifier prefix and different rules are used side by side
     if r.chance(1, 2) { for z in ["America/Indiana/Indianapolis", "America/Indiana/Knox"] { if !pool.contains(&z) { pool.push(z); } } }
+    // hammer sessions: many cheap getter calls from a small set of (zone, instant) pairs on every thread at once - state kept
+    // outside the provider lock (a memo of the last answer, say) shows only under this kind of contention
+    if sid % 6 == 4 {
+        let zs: Vec<&'static str> = ZONES.iter().cloned().take(12).collect();
+        let distinct: Vec<Value> = (0..12).map(|i| { let ns = instant(r); let tz = zs[i % zs.len()];
+            match i % 3 { 0 => json!({"op": "CZ.offset", "args": {"ns": ns, "tz": tz}}), 1 => json!({"op": "CZ.get", "args": {"ns": ns, "tz": tz, "f": "hour"}}), _ => json!({"op": "CZ.offset", "args": {"ns": ns, "tz": tz}}) } }).collect();
+        let calls = if n > 8 { 80 } else { 160 };
+        let ph = Value::Array((0..n).map(|_| Value::Array((0..calls).map(|_| r.pick(&distinct[..]).clone()).collect())).collect());
+        return json!({"n": n, "kind": "clean", "phases": [ph]});
+    }
     let per = r.range(4, 10) as usize;
     let fault_session = sid % 3 == 2;
     let mut phases: Vec<Value> = Vec::new();
